@@ -5,7 +5,7 @@
    Python floats are exact rationals in the Model (value statements are Qeq). *)
 From Coq Require Import List ZArith Bool QArith.
 Import ListNotations.
-From Verif Require Import Val Units Signatures Numeric Args NumericSpec NumericProofs ArgsProofs SigProofs GlueProofs TypedProofs LexArgsBridge.
+From Verif Require Import Val Units Signatures Numeric Args NumericSpec NumericProofs ArgsProofs SigProofs GlueProofs TypedProofs LexArgsBridge ParseProofs.
 From Verif Require Tokenizer LexItems.
 Local Open Scope Z_scope.
 
@@ -295,12 +295,38 @@ Qed.
    dimensions as exact rationals, strings with blanks stripped, list items and dictionary pairs in order), exactly the call is
    consumed, the enable level is restored.
    Excluded (see [conforms]): list/dict contents with groups or macros, registers or active characters inside a string (expansion not
-   modelled); int/float/dimen arguments that are not exactly one literal; a register directly after a Number argument (known finding: it multiplies the constant); `l` after fil/fill; subtypes of list/dict other than none/str; dict values that are empty or
+   modelled); int/float/dimen arguments that are not exactly one literal; a register directly after a Number argument (known finding: it multiplies the constant); `l` after fil/fill; subtypes of list other than none/str/int and of dict other than none/str; dict values that are empty or
    contain `=`; label/id/ref/idref/url (casts with side effects on the document); XTok, Args, any. *)
 Theorem C05_parse_binds_typed_partial : forall args s b s',
   tcall args s b s' ->
   forall lvl acc, exists vals, parse_args args s lvl acc = POk (rev acc ++ vals) s' lvl /\ Forall2 bound vals b.
 Proof. exact parse_binds_typed. Qed.
+
+(* M4 and M5 composed: for every signature AST of the documented grammar, printed as an args string, and every conforming typed
+   call of the arguments it declares: compiling the string and reading the arguments binds every declared name to the value its
+   tokens denote, consumes exactly the call and restores the level *)
+Theorem C05_macro_parse_binds : forall lead (l : list (sitem * nat)) s b s',
+  Forall wf_item (map fst l) ->
+  tcall (map (fun p => arg_of_item (fst p)) l) s b s' ->
+  forall lvl, exists vals, macro_parse (print_sig lead l) s lvl = POk vals s' lvl /\ Forall2 bound vals b.
+Proof. exact macro_parse_binds. Qed.
+
+(* a Number argument ended directly by a brace, $ or an ordinary control sequence (\foo 12{abc}): the value is read and that
+   token stays in the stream, unexpanded -- the former known finding number-then-brace, now a theorem about the repaired code *)
+Theorem C05_number_then_brace : forall a sr l rest,
+  classify (a_type a) = TyNumberP -> il_ok l -> stops_head rest ->
+  forall lvl, exists v, read_argument a (print_signs sr ++ il_toks l ++ rest) lvl = AOk v rest lvl /\ v = VInt (sign_value sr * il_value l).
+Proof.
+  intros a sr l rest H1 H2 H3 lvl. destruct (areads_number_tight a sr l rest H1 H2 H3 lvl) as (v & Hr & Hv).
+  exists v. split; [exact Hr|symmetry; exact Hv].
+Qed.
+
+(* the hypothesis "an absent plus / minus is really absent" of the glue theorem holds as soon as the next token cannot be the
+   keyword's first letter *)
+Theorem C05_misses_first : forall kw l ls s, map upper kw = l :: ls ->
+  match s with [] => True | t :: _ => is_element t = false /\ tok_upper_is t l = false end ->
+  misses kw s.
+Proof. exact misses_first. Qed.
 
 (* ---------------------------------------------------------------- non-vacuity *)
 
@@ -421,4 +447,33 @@ Proof.
   split; [eexists; split; vm_compute; reflexivity|].
   split; [split; [repeat constructor|split; [reflexivity|repeat constructor]]|]. split; [reflexivity|].
   eexists. split; [vm_compute; reflexivity|]. vm_compute. reflexivity.
+Qed.
+
+
+(* non-vacuity: \foo 12{a}z with args = "n:Number t"; `minus` is missed on the stream x... *)
+Definition C05_example_sig : list (sitem * nat) :=
+  [(SArg [110] None (Some (mkTy n_Number None None)) 0 0, 0%nat); (SArg [116] None None 0 0, 0%nat)].
+Example C05_nonvacuous_parse :
+  stops_head [Ch 1 123; Ch 11 97; Ch 2 125] /\ il_ok (ILDec [Ch 12 49; Ch 12 50]) /\ misses kw_minus [Ch 11 120] /\
+  Forall wf_item (map fst C05_example_sig) /\
+  tcall (map (fun p => arg_of_item (fst p)) C05_example_sig)
+        ([Ch 12 49; Ch 12 50] ++ [Ch 1 123; Ch 11 97; Ch 2 125] ++ [Ch 11 122])
+        [([110], eq (VInt 12)); ([116], eq (VToks [Ch 11 97]))] [Ch 11 122] /\
+  macro_parse (print_sig 0 C05_example_sig) ([Ch 12 49; Ch 12 50] ++ [Ch 1 123; Ch 11 97; Ch 2 125] ++ [Ch 11 122]) 0
+  = POk [([110], VInt 12); ([116], VToks [Ch 11 97])] [Ch 11 122] 0.
+Proof.
+  assert (Hil : il_ok (ILDec [Ch 12 49; Ch 12 50])) by (split; [discriminate|repeat constructor; tokp]).
+  split; [reflexivity|]. split; [exact Hil|]. split; [reflexivity|]. split.
+  { cbn [map fst C05_example_sig]. constructor.
+    - split; [split; [discriminate|reflexivity]|]. split; [eexists; eexists; split; reflexivity|]. split; [exact I|].
+      split; [split; [discriminate|reflexivity]|]. split; exact I.
+    - constructor; [|constructor]. split; [split; [discriminate|reflexivity]|]. split; [eexists; eexists; split; reflexivity|]. split; exact I. }
+  split; [|vm_compute; reflexivity].
+  pose proof (c_number_tight (mkArg [110] None (Some n_Number) None None true) (mkSR 0 []) (ILDec [Ch 12 49; Ch 12 50])
+                             ([Ch 1 123; Ch 11 97; Ch 2 125] ++ [Ch 11 122]) eq_refl Hil eq_refl) as C1.
+  vm_compute in C1.
+  pose proof (c_untyped (mkArg [116] None None None None true) 0 _ [Ch 11 97] [Ch 11 122] (or_introl eq_refl)
+                        (del_brace 123 125 [Ch 11 97] eq_refl) eq_refl) as C2.
+  vm_compute in C2. vm_compute.
+  eapply tcall_cons; [exact C1|]. eapply tcall_cons; [exact C2|]. apply tcall_nil.
 Qed.
